@@ -21,7 +21,7 @@ RULE = ("Two strategies. (1) Hypothesis draws a vector / matrix / scalar recipe 
         "operands with incompatible shapes for one operation; building must raise (or, if NumPy itself would "
         "broadcast the pair, agree with NumPy).  Non-trivial = the recipe contains a view of a view, a "
         "reflected operator, an array/list operand, a symmetric matrix, or is a mismatch case.")
-BUDGET = {"quick": {"workers": 16, "examples": 700}, "thorough": {"workers": 16, "examples": 10000}}
+BUDGET = {"quick": {"workers": 16, "examples": 1300}, "thorough": {"workers": 16, "examples": 10000}}
 ASSUMPTIONS = ["NumPy broadcasting / slicing / linalg semantics are the definition of the counterpart operation"]
 MANIFEST = {
  "technique": "property-based testing (Hypothesis): differential against the same recipe executed on NumPy arrays; shape-mismatch rejection",
